@@ -221,10 +221,15 @@ ForExit ==
   /\ Goto([m |-> "done"], Tail(kont)) /\ cur' = Head(kont).env
   /\ Quiet /\ UNCHANGED <<envs, heap, ln>> /\ Tick
 
+(* ScopesReclaimed: when a call ends and no closure was created while it ran, nothing can refer to the scopes it created
+   (only closures hold scopes): they are dropped.  The machine would be correct without this; it keeps the state small
+   in programs that call thousands of times. *)
+AfterCall(fr) == IF \E r \in (fr.vs[1] + 1)..Len(heap) : heap[r].t = "fn" THEN envs ELSE SubSeq(envs, 1, fr.i)
 CallFallsOff ==    \* the body ended without return: the call's value is nil
   /\ Done("call")
   /\ Goto([m |-> "val", v |-> VNil], Tail(kont)) /\ cur' = Head(kont).env /\ ln' = Head(kont).ln
-  /\ Quiet /\ UNCHANGED <<envs, heap>> /\ Tick
+  /\ envs' = AfterCall(Head(kont))
+  /\ Quiet /\ UNCHANGED <<heap>> /\ Tick
 
 ---------------------------------------------------------------------------
 (* SIGNALS: break / continue / return unwind to the nearest handler *)
@@ -244,7 +249,8 @@ Signal ==
           IF fr.f = "call"                                                          \* ReturnUnwindsToCall (a loop signal that
           THEN /\ Goto([m |-> "val", v |-> ctl.v], Tail(u.k))                       \* reaches a call ends it with nil:
                /\ cur' = fr.env /\ ln' = fr.ln                                      \* FnAbsorbsLoopSignal)
-               /\ Quiet /\ UNCHANGED <<envs, heap>>
+               /\ envs' = AfterCall(fr)
+               /\ Quiet /\ UNCHANGED <<heap>>
           ELSE IF ctl.s = "break" /\ ~("WhileSwallowsReturn" \in Broken /\ FALSE)     \* BreakLeavesInnermostLoop
           THEN Goto([m |-> "done"], Tail(u.k)) /\ cur' = restored /\ Quiet /\ UNCHANGED <<envs, heap, ln>>
           ELSE Goto([m |-> "done"], u.k) /\ cur' = restored /\ Quiet /\ UNCHANGED <<envs, heap, ln>>   \* continue = body done
@@ -298,7 +304,7 @@ InvokeUser(fv, args, k) ==
   LET fc == heap[fv.r]  n == Node(fc.p) IN
   /\ envs' = Append(envs, [parent |-> fc.env, vars |-> BindParams((n.name :> fv), n.params, args)])
   /\ cur' = Len(envs) + 1
-  /\ Goto([m |-> "done"], <<Frame("seq", fc.p, 1, <<>>, 0, 0), Frame("call", <<>>, 0, <<>>, cur, ln)>> \o k)
+  /\ Goto([m |-> "done"], <<Frame("seq", fc.p, 1, <<>>, 0, 0), Frame("call", <<>>, Len(envs), <<Len(heap)>>, cur, ln)>> \o k)   \* i, vs: scopes and heap cells before the call
   /\ Quiet /\ UNCHANGED <<heap, ln>>
 
 (* built-ins that touch the heap or the outside world *)
@@ -518,9 +524,10 @@ HeapWellFormed == \A r \in 1..Len(heap) :
 NoEffectAfterErrorB == status = "error" => UNCHANGED <<out, natlog, stdin, heap, envs, status, diags>>
 NoEffectAfterError == [][NoEffectAfterErrorB]_semvars
 (* scopes and heap cells are never deleted or renumbered; a closure never changes *)
-MonotoneB == /\ Len(envs') >= Len(envs) /\ Len(heap') >= Len(heap)
-               /\ \A r \in 1..Len(heap) : heap[r].t = "fn" => heap'[r] = heap[r]
-               /\ \A e \in 1..Len(envs) : envs'[e].parent = envs[e].parent /\ DOMAIN envs[e].vars \subseteq DOMAIN envs'[e].vars
+MonotoneB == /\ Len(heap') >= Len(heap)
+               /\ \A r \in 1..Len(heap) : heap[r].t = "fn" => heap'[r] = heap[r] /\ heap[r].env <= Len(envs')      \* a closure's scope is never reclaimed
+               /\ \A e \in 1..Len(envs) : e <= Len(envs') => envs'[e].parent = envs[e].parent /\ DOMAIN envs[e].vars \subseteq DOMAIN envs'[e].vars
+               /\ cur' <= Len(envs') /\ \A i \in 1..Len(kont') : kont'[i].env <= Len(envs')
 Monotone == [][MonotoneB]_semvars
 (* one step changes at most one existing heap cell (IndexStoreLocal / PropStoreLocal / PushRemoveArePure) *)
 StoreLocalB == Cardinality({r \in 1..Len(heap) : heap'[r] # heap[r]}) <= 1
